@@ -7,8 +7,8 @@ from __future__ import annotations
 from . import gen
 
 KINDS = ["block", "inline", "void_inline", "void_block", "text", "html", "obj", "meta", "dep"]
-BLOCKS = ["div", "p", "section", "ul", "li", "table", "h2", "x-block", "pre", "textarea", "title"]
-INLINES = ["span", "a", "b", "em", "code", "x-inl", "pre", "textarea", "svg", "button"]
+BLOCKS = ["div", "p", "section", "ul", "li", "table", "h2", "x-block", "pre", "textarea", "title", "DIV", "linearGradient", "lineargradient", "X-Block"]
+INLINES = ["span", "a", "b", "em", "code", "x-inl", "pre", "textarea", "svg", "button", "textPath", "textpath", "EM", "Span", "SPAN"]
 VOID_INLINE = ["br", "img", "input", "wbr"]
 VOID_BLOCK = ["hr", "meta", "link", "col"]
 
